@@ -3,6 +3,7 @@ package props
 import (
 	"fmt"
 	"math"
+	"runtime"
 
 	"github.com/sahandsafizadeh/qeep/component/layers/activations"
 	"github.com/sahandsafizadeh/qeep/tensor"
@@ -203,6 +204,50 @@ func runC14(c *fw.Ctx) {
 				}
 			})
 		}
+	}
+	// an inference loop: ONE layer object, a fresh untracked input of the same shape at every step, dropped after use, a garbage
+	// collection between the steps (the next input lands where the previous one lived)
+	for i := 0; i < c.Pick(120, 2400); i++ {
+		c.Case(func(k *fw.K) {
+			shape := [][]int{{3}, {2, 2}, {1}, {4, 1}, {2, 3}}[k.Rng.Intn(5)]
+			specs := actSpecs(len(shape))
+			sp := specs[k.Rng.Intn(len(specs))]
+			obj, err := sp.mk()
+			if err != nil {
+				k.Failf("%s: constructor failed: %v", sp.name, err)
+				return
+			}
+			steps := 4 + k.Rng.Intn(12)
+			k.Case = map[string]any{"activation": sp.name, "shape": shape, "steps": steps, "family": "inference loop with garbage collections"}
+			k.Key("%s/%s/collected", sp.name, shapeKey(shape))
+			k.Count("inference_loops_with_garbage_collections", 1)
+			for s := 0; s < steps; s++ {
+				x, _ := actValues(k, 0, shape, sp.in.Dim)
+				want, _ := ref.Apply(sp.in, []*ref.T{x})
+				var got *ref.T
+				if p := call(func() {
+					in, e := rt.Direct(x, false) // built directly: one allocation pattern per step
+					if e != nil {
+						err = e
+						return
+					}
+					y, e := obj.Forward(in)
+					if e != nil || y == nil {
+						err = fmt.Errorf("Forward: %v", e)
+						return
+					}
+					got, err = rt.Read(y)
+				}); p != nil || err != nil {
+					k.Failf("%s step %d of an inference loop: panic=%v err=%v", sp.name, s, p, err)
+					return
+				}
+				if e := rt.CompareRef(got, want, 1e-300, 1e-12, nil, 0); e != nil {
+					k.Failf("%s on shape %v, step %d of an inference loop on one layer object (fresh inputs, a garbage collection after every step): %v", sp.name, shape, s, e)
+					return
+				}
+				runtime.GC()
+			}
+		})
 	}
 	// groups of shapes that collide under ad-hoc cache keys and hashes: every activation (Softmax along every dimension) on every
 	// shape of a group, one after the other in one process, both orders
